@@ -222,6 +222,11 @@ impl R {
     /// Build the real enum term through the crate's public constructors, inserting children in
     /// recipe order. Panics (inside the crate) if the recipe violates a constructor's contract.
     pub fn build(&self) -> Term {
+        let _w = crate::watch::enter_with(|| format!("building {}", self.show()));
+        self.build_inner()
+    }
+
+    fn build_inner(&self) -> Term {
         // children first (eagerly), so that set containers are created in post-order
         let kids: Vec<Term> = self.kids.iter().map(|k| k.build()).collect();
         let mut ks = kids.into_iter();
